@@ -196,6 +196,7 @@ func (e *Engine) runJob(spec JobSpec, kfOpen map[string]bool) (job *Job) {
 		knownHits: map[string]int{}, asserts: map[string]*AssertStat{}, reach: map[string]*DrawSet{}, reachCount: map[string]int{},
 		funcs: map[string]int{}, forkSites: map[string]int{}, maxViol: 2, kfOpen: kfOpen, maxPreempt: -1}
 	job.labels = spec.Labels
+	job.race = spec.Params["race"] == "1"
 	if job.Params == nil {
 		job.Params = map[string]string{}
 	}
